@@ -370,6 +370,26 @@ def flavour_leaves(leaves: dict, rng) -> int:
     return n
 
 
+def sprinkle_options(prog, rng, engines, prob, kinds=("calc", "proj", "sel", "dedup", "sort")):
+    """Copy of ``prog`` in which unary factory calls downstream of a transfer carry preferred-engine
+    options (preferred engine drawn from ``engines``, backtracking on, no transfer, not required):
+    the library may then insert the operation upstream, which must not change what the tree yields."""
+    op = prog[0]
+    if op == "leaf":
+        return prog, False
+    if op in ("chain", "join"):
+        a, xa = sprinkle_options(prog[1], rng, engines, prob, kinds)
+        b, xb = sprinkle_options(prog[2], rng, engines, prob, kinds)
+        return [op, a, b] + list(prog[3:]), xa or xb
+    sub, has_x = sprinkle_options(prog[1], rng, engines, prob, kinds)
+    new = [op, sub] + list(prog[2:])
+    if op == "xfer":
+        return new, True
+    if has_x and op in kinds and not isinstance(new[-1], dict) and rng.random() < prob:
+        new[-1] = {"pe": rng.choice(engines), "bt": True, "tr": False, "rq": False}
+    return new, has_x
+
+
 def case_from(gen: Gen, state) -> dict:
     prog, cols, eng = state
     if gen.cfg.flavour_prob and gen.rng.random() < gen.cfg.flavour_prob:
